@@ -16,6 +16,9 @@ CLAIMED = {
  "C07": ("Lean 4 proof (structural induction on the type model) + differential correspondence with the Go implementation",
          "Machine-checked theorems for all types of any depth: Equals is structural identity (hence an equivalence), conformance = equality up to optional annotations after filling placeholders, HasDynamicTypes = occurrence, annotation stripping idempotent and touching nothing else, type-JSON round trip at token-tree level. The model functions are transliterations of the Go methods and are diffed against /repo on every run, exhaustively for small types.",
          "DESIGN.md §6 C07", "byte-level JSON lexing is encoding/json's and is not modelled"),
+ "C10": ("Lean 4 proof (closed-form decision table of Function.Call/ReturnTypeForValues, for all specs and all callbacks) + differential correspondence with the Go implementation (spy callbacks, small scopes enumerated)",
+         "Machine-checked for every spec, every Type/Impl/RefineResult callback (arbitrary functions that may fail, panic or return junk) and every argument list: Impl runs only after Type succeeded and with its type; every argument the callbacks see satisfies the parameter contract (conformance, null, unknown, dynamic, marks at any depth); the outcome is exactly one row of the decision table (count error | ArgError naming the first offender by absolute index | short-circuit to an unknown of the checked type carrying exactly the unhandled marks | callback error | PanicError | conforming refined value with the unhandled marks); callback panics and non-conforming results become errors; a Go panic escapes iff the refinement builder refuses the result (recorded finding, proved as a counterexample). The model follows function.go branch for branch and is diffed against /repo on every run.",
+         "DESIGN.md §6 C10", "the documented obligation 'RefineResult must be true of the result' is a hypothesis (RefinerValid) of no_go_panic; without it the counterexample is the known finding"),
 }
 NOT_YET = "machinery for this property is not built yet in this round (model slice, theorems and correspondence pending); see DESIGN.md §9 build order"
 
